@@ -251,6 +251,14 @@ func RandomLexer(r *rng.R, o LexOpts) (*lexspec.Spec, Alphabet) {
 			if o.NoNullable || r.Intn(100) >= np {
 				x = g.nonNullable(x)
 			}
+			if o.NonGreedyOps && !o.NoNullable && r.Chance(1, 6) {
+				// a rule whose empty match goes through a non-greedy closure:
+				// the start state of the mode contains the loop's exit
+				x = lexspec.Card{X: g.atom(), Op: "*?"}
+				if r.Chance(1, 2) {
+					x = lexspec.Cat{Parts: []lexspec.Rx{x, lexspec.Card{X: g.atom(), Op: "?"}}}
+				}
+			}
 			rule := lexspec.Rule{Rx: x}
 			isFrag := r.Chance(1, 4) || (o.Frags && r.Chance(1, 3))
 			if isFrag {
@@ -305,6 +313,19 @@ func RandomLexer(r *rng.R, o LexOpts) (*lexspec.Spec, Alphabet) {
 				}
 			}
 			rules = append(rules, rule)
+		}
+		if inMode && o.BothModeActions && !o.NoNullable && r.Chance(1, 4) {
+			// a rule that can match the empty string and both pops and pushes:
+			// acting on its empty match would leave the mode stack as deep as
+			// it was
+			var x lexspec.Rx = lexspec.Card{X: g.atom(), Op: []string{"?", "*"}[r.Intn(2)]}
+			as := []lexspec.Action{{Kind: lexspec.APop}, {Kind: lexspec.APush, Arg: modes[r.Intn(len(modes))]}}
+			if r.Chance(1, 2) {
+				as[0], as[1] = as[1], as[0]
+			}
+			ru := lexspec.Rule{Kind: lexspec.RToken, Name: newTok(), Rx: x, Actions: as}
+			at := r.Intn(len(rules) + 1)
+			rules = append(rules[:at], append([]lexspec.Rule{ru}, rules[at:]...)...)
 		}
 		if inMode {
 			// make sure the mode can be left
